@@ -1403,3 +1403,40 @@ Proof.
       unfold direct_topic_fetch. simpl. rewrite Es, Et, Ei. simpl. subst p. reflexivity.
     + left. reflexivity.
 Qed.
+
+(* packaged for props/C18.v *)
+Theorem partial_failure_general : forall (K A V : Type) (F : list (K * A) -> V) (ups : list (K * fetch A)),
+  let r := error_rule (length ups) (nfailed ups) (F (answers ups)) in
+  (r = AHard <-> forall u, In u ups -> failed u = true) /\
+  (forall v n, r = AOk v n ->
+     error_rule (length (ok_part ups)) (nfailed (ok_part ups)) (F (answers (ok_part ups))) = AOk v 0 /\
+     n = nfailed ups /\ (n <> 0%nat <-> exists u, In u ups /\ failed u = true)).
+Proof. intros K A V F ups. exact (partial_view V F ups). Qed.
+
+Theorem tombstones_full : forall topics tombs,
+  pair_tombstones topics tombs = Ok (pair_pure 0 topics tombs) /\
+  length (pair_pure 0 topics tombs) = length topics /\
+  forall i t b, nth_error (pair_pure 0 topics tombs) i = Some (t, b) ->
+                nth_error topics i = Some t /\ b = nth i tombs false.
+Proof. intros topics tombs. split. apply pair_tombstones_ok. apply pair_pure_spec. Qed.
+
+Theorem source_shapes_current :
+  (topic_add_fields = ["Depth"; "MemoryDepth"; "BackendDepth"; "MessageCount"; "DeliveryMsgCount";
+                       "ZoneLocalMsgCount"; "RegionLocalMsgCount"; "GlobalMsgCount"]%string /\
+   topic_add_other = ["if a.Paused"; "t.Paused = a.Paused"]%string /\
+   length topic_add_fields = length tfields) /\
+  (channel_add_fields = ["Depth"; "MemoryDepth"; "BackendDepth"; "InFlightCount"; "DeferredCount"; "RequeueCount";
+                         "TimeoutCount"; "MessageCount"; "DeliveryMsgCount"; "ZoneLocalMsgCount"; "RegionLocalMsgCount";
+                         "GlobalMsgCount"; "ClientCount"]%string /\
+   channel_add_other = ["if a.Paused"; "c.Paused = a.Paused"]%string /\
+   channel_add_clients = ["if c.E2eProcessingLatency == nil"; "if client != nil"; "c.Clients = append(c.Clients, client)"]%string /\
+   length channel_add_fields = length cfields) /\
+  (forallb get_rule_ok ci_error_rules = true /\
+   map fst (filter (fun e => Nat.eqb (length (snd e)) 2) ci_error_rules) =
+   ["GetLookupdProducers"; "GetLookupdTopicChannels"; "GetLookupdTopicProducers"; "GetLookupdTopics";
+    "GetNSQDProducers"; "GetNSQDStats"; "GetNSQDTopicProducers"; "GetNSQDTopics"]%string) /\
+  (ci_nil_guards = [("GetLookupdProducers", ["producer == nil"]); ("GetLookupdTopicProducers", ["p == nil"]);
+                    ("GetNSQDStats", ["topic == nil"; "channel == nil"; "c == nil"])]%string /\
+   quantile_nil_guards = ["UnmarshalJSON: p == nil => continue"; "Add: e2 == nil => return"]%string /\
+   producer_tombstone_exprs = ["i < len(r.Tombstoned) && r.Tombstoned[i]"; "Tombstoned: tombstoned"]%string).
+Proof. exact (conj topic_add_shape_current (conj channel_add_shape_current (conj error_rules_current nil_guards_current))). Qed.
